@@ -157,10 +157,17 @@ class Processor(Iface, TProcessor):
   """Generic server-side processor written with the Thrift library's protocol
   primitives only (the compiler would emit one process_<m> per method)."""
 
+  _methods = METHODS
+
   def __init__(self, handler):
     self._handler = handler
 
+  @staticmethod
+  def _cls(name):
+    return globals()[name]
+
   def process(self, iprot, oprot):
+    METHODS = self._methods
     (name, mtype, seqid) = iprot.readMessageBegin()
     if name not in METHODS:
       iprot.skip(TType.STRUCT)
@@ -172,10 +179,10 @@ class Processor(Iface, TProcessor):
       oprot.trans.flush()
       return
     slots, excs, void = METHODS[name]
-    args = globals()[name + '_args']()
+    args = self._cls(name + '_args')()
     args.read(iprot)
     iprot.readMessageEnd()
-    result = globals()[name + '_result']()
+    result = self._cls(name + '_result')()
     msg_type = TMessageType.REPLY
     try:
       ret = getattr(self._handler, name)(*[getattr(args, s) for s in slots])
